@@ -226,6 +226,34 @@ def looping_sleepers(n, ns):
     return scenario
 
 
+def zero_delay(sx):
+    """the extreme of "never sleeps longer than it asked": a delay of exactly 0 (an int or a float), with and
+    without other sleepers, no switch - the sleeper is back at once"""
+    import asyncio
+    import geckolib.config as gc
+    from sx.vloop import VLoop
+    loop = VLoop(start=0)
+    saved_cc = gc.ConfigChange
+    gc.ConfigChange = None
+    try:
+        zero = [0, 0.0][sx.choice("zero_kind", 2)]
+        others = sx.choice("other_sleepers", 2)
+        woke = {}
+
+        async def sleeper(i, d):
+            await gc.config_sleep(d)
+            woke[i] = loop.time()
+
+        async def main():
+            ts = [asyncio.ensure_future(sleeper(0, zero))] + [asyncio.ensure_future(sleeper(1 + i, 5)) for i in range(others)]
+            await asyncio.wait(ts, timeout=50)
+        loop.run_until_complete(main(), max_time=1000)
+        sx.check(0 in woke and woke[0] == 0, "slp.zero-delay-returns-at-once", lambda: str(woke))
+        loop.cancel_all()
+    finally:
+        gc.ConfigChange = saved_cc
+
+
 def _ite(c, a, b):
     from sx.realtime import SymReal, _r, mkreal
     from sx.core import bterm
@@ -242,6 +270,7 @@ def units(tier):
         yield Unit(f"facade-selects.{plat}-{c}-{l}", facade_selects(plat, c, l), max_paths=50000)
     k, m = (2, 1) if tier == "quick" else (3, 2)
     yield Unit(f"sleepers.{k}x{m}", sleepers(k, m), max_paths=200000, max_depth=3000)
+    yield Unit("zero-delay", zero_delay)
     yield Unit("looping-sleepers.2x2", looping_sleepers(2, 2), max_paths=200000, max_depth=3000)
     if tier != "quick":
         yield Unit("looping-sleepers.3x2", looping_sleepers(3, 2), max_paths=400000, max_depth=4000)
